@@ -3,6 +3,8 @@
  * Built by checks/C16.py with  ctx.build.harness(variant, "c16io", [this file],
  *      extra_ld=["-Wl,--wrap=read,--wrap=write,--wrap=send,--wrap=recv,--wrap=sendto,--wrap=recvfrom,
  *                 --wrap=epoll_ctl,--wrap=epoll_wait"])
+ * Session 3: also --wrap=waitpid,pipe,close,dup,fcntl,posix_spawn,posix_spawnp,posix_spawn_file_actions_adddup2,
+ *      posix_spawn_file_actions_addclose (descriptor plumbing of os/spawn / os/execute: `K` lines; status-word injection).
  * `#include "ev.c"` makes the file-static StateRead / StateWrite visible, so every intercepted syscall is logged
  * together with the state-machine fields the Lean model has (start / bytes_left / bytes_read / is_chunk / mode).
  * This object replaces ev.o of libjanet.a at link time (it defines every symbol ev.o defines).
@@ -28,6 +30,12 @@
 #include <sys/epoll.h>
 #include <poll.h>
 #include <signal.h>
+#include <stdarg.h>
+#include <dirent.h>
+#include <spawn.h>
+#include <sys/wait.h>
+#include <fcntl.h>
+#include <unistd.h>
 
 ssize_t __real_read(int, void *, size_t);
 ssize_t __real_write(int, const void *, size_t);
@@ -281,6 +289,152 @@ int __wrap_epoll_wait(int epfd, struct epoll_event *events, int maxevents, int t
     _exit(98);
 }
 
+/* ------------------------------------------------------------------ descriptor plumbing of os/spawn, os/execute (K lines) */
+pid_t __real_waitpid(pid_t, int *, int);
+int __real_pipe(int[2]);
+int __real_close(int);
+int __real_dup(int);
+int __real_fcntl(int, int, ...);
+int __real_posix_spawn(pid_t *, const char *, const posix_spawn_file_actions_t *, const posix_spawnattr_t *, char *const[], char *const[]);
+int __real_posix_spawnp(pid_t *, const char *, const posix_spawn_file_actions_t *, const posix_spawnattr_t *, char *const[], char *const[]);
+int __real_posix_spawn_file_actions_adddup2(posix_spawn_file_actions_t *, int, int);
+int __real_posix_spawn_file_actions_addclose(posix_spawn_file_actions_t *, int);
+
+static int klog_on = 0;          /* set between (c16/klog true) and (c16/klog false): only the spawn under test is logged */
+#define KLOG(...) do { if (trace && klog_on) { fprintf(trace, "K " __VA_ARGS__); fputc('\n', trace); } } while (0)
+
+/* status-word injection: the next waitpid that reaps `pid` (or any pid when registered for -1) reports `word` instead */
+#define MAXINJ 64
+static volatile int inj_pid[MAXINJ], inj_word[MAXINJ], inj_used[MAXINJ];
+
+pid_t __wrap_waitpid(pid_t pid, int *status, int options) {
+    c16_init();
+    int st = 0;
+    pid_t r = __real_waitpid(pid, &st, options);
+    int e = errno;
+    int orig = st;
+    if (r > 0) {
+        for (int i = 0; i < MAXINJ; i++) {
+            if (inj_used[i] && (inj_pid[i] == r || inj_pid[i] == -1)) {
+                st = inj_word[i];
+                inj_used[i] = 0;
+                break;
+            }
+        }
+    }
+    if (status) *status = st;
+    if (trace) fprintf(trace, "Q waitpid options=%d ret=%d status=%d kernel=%d\n", options, r > 0 ? 1 : (int) r, st, orig);
+    errno = e;
+    return r;
+}
+
+int __wrap_pipe(int fds[2]) {
+    c16_init();
+    int r = __real_pipe(fds);
+    if (r == 0) KLOG("pipe r=%d w=%d", fds[0], fds[1]); else KLOG("pipefail errno=%d", errno);
+    return r;
+}
+int __wrap_close(int fd) {
+    int r = __real_close(fd);
+    KLOG("close fd=%d ret=%d", fd, r);
+    return r;
+}
+int __wrap_dup(int fd) {
+    int r = __real_dup(fd);
+    KLOG("dup fd=%d ret=%d", fd, r);
+    return r;
+}
+int __wrap_fcntl(int fd, int cmd, ...) {
+    va_list ap;
+    va_start(ap, cmd);
+    long arg = va_arg(ap, long);
+    va_end(ap);
+    int r = __real_fcntl(fd, cmd, arg);
+    if (cmd == F_SETFD) KLOG("setfd fd=%d cloexec=%d ret=%d", fd, (int)(arg & FD_CLOEXEC) ? 1 : 0, r);
+    else if (cmd == F_SETFL) KLOG("setfl fd=%d nonblock=%d ret=%d", fd, (arg & O_NONBLOCK) ? 1 : 0, r);
+    else if (cmd == F_DUPFD || cmd == F_DUPFD_CLOEXEC) KLOG("dupfd fd=%d min=%ld cloexec=%d ret=%d", fd, arg, cmd == F_DUPFD_CLOEXEC, r);
+    return r;
+}
+int __wrap_posix_spawn_file_actions_adddup2(posix_spawn_file_actions_t *a, int src, int dst) {
+    int r = __real_posix_spawn_file_actions_adddup2(a, src, dst);
+    KLOG("adddup2 src=%d dst=%d ret=%d", src, dst, r);
+    return r;
+}
+int __wrap_posix_spawn_file_actions_addclose(posix_spawn_file_actions_t *a, int fd) {
+    int r = __real_posix_spawn_file_actions_addclose(a, fd);
+    KLOG("addclose fd=%d ret=%d", fd, r);
+    return r;
+}
+static int fail_next_spawn = 0;
+int __wrap_posix_spawn(pid_t *pid, const char *path, const posix_spawn_file_actions_t *fa, const posix_spawnattr_t *at, char *const argv[], char *const envp[]) {
+    int r = fail_next_spawn ? ENOENT : __real_posix_spawn(pid, path, fa, at, argv, envp);
+    if (fail_next_spawn) { fail_next_spawn = 0; errno = ENOENT; }
+    KLOG("spawn ret=%d", r);
+    return r;
+}
+int __wrap_posix_spawnp(pid_t *pid, const char *path, const posix_spawn_file_actions_t *fa, const posix_spawnattr_t *at, char *const argv[], char *const envp[]) {
+    int r = fail_next_spawn ? ENOENT : __real_posix_spawnp(pid, path, fa, at, argv, envp);
+    if (fail_next_spawn) { fail_next_spawn = 0; errno = ENOENT; }
+    KLOG("spawn ret=%d", r);
+    return r;
+}
+
+/* the descriptor table of this process: "fd:cloexec:target" for every open descriptor, in fd order */
+static void fd_table(FILE *out, const char *sep) {
+    int fds[1024], n = 0;
+    DIR *d = opendir("/proc/self/fd");
+    if (!d) return;
+    int dfd = dirfd(d);
+    struct dirent *de;
+    while ((de = readdir(d)) && n < 1024) {
+        if (de->d_name[0] == '.') continue;
+        int fd = atoi(de->d_name);
+        if (fd != dfd) fds[n++] = fd;
+    }
+    closedir(d);
+    for (int i = 0; i < n; i++) for (int j = i + 1; j < n; j++) if (fds[j] < fds[i]) { int t = fds[i]; fds[i] = fds[j]; fds[j] = t; }
+    for (int i = 0; i < n; i++) {
+        char path[64], tgt[512];
+        snprintf(path, sizeof path, "/proc/self/fd/%d", fds[i]);
+        ssize_t k = readlink(path, tgt, sizeof tgt - 1);
+        if (k < 0) k = 0;
+        tgt[k] = 0;
+        for (ssize_t q = 0; q < k; q++) if (tgt[q] == ' ' || tgt[q] == '\n') tgt[q] = '_';
+        int fl = __real_fcntl(fds[i], F_GETFD, 0L);
+        fprintf(out, "%s%d:%d:%s", i ? sep : "", fds[i], (fl & FD_CLOEXEC) ? 1 : 0, tgt);
+    }
+}
+
+/* child mode:  c16io --fdlist <listing file> <exit code> <stderr text>
+ * writes its own descriptor table to the listing file, copies stdin to stdout until end of input, writes the text to
+ * stderr and exits with the code.  Runs before anything else touches descriptors. */
+static int child_main(int argc, char **argv) {
+    char buf[65536];
+    size_t len = 0;
+    {
+        FILE *m = fmemopen(buf, sizeof buf - 1, "w");
+        fd_table(m, " ");
+        fflush(m);
+        len = (size_t) ftell(m);
+        fclose(m);
+    }
+    int code = argc > 3 ? atoi(argv[3]) : 0;
+    int lf = open(argv[2], O_WRONLY | O_CREAT | O_TRUNC | O_CLOEXEC, 0644);
+    if (lf >= 0) { (void) !__real_write(lf, buf, len); __real_close(lf); }
+    if (argc > 5 && !strcmp(argv[5], "cat")) {
+        char io[8192];
+        ssize_t k;
+        while ((k = __real_read(0, io, sizeof io)) > 0) {
+            ssize_t off = 0;
+            while (off < k) { ssize_t w = __real_write(1, io + off, (size_t)(k - off)); if (w <= 0) _exit(99); off += w; }
+        }
+    } else {
+        (void) !__real_write(1, "OUT", 3);
+    }
+    if (argc > 4) (void) !__real_write(2, argv[4], strlen(argv[4]));
+    _exit(code);
+}
+
 /* ------------------------------------------------------------------ janet-visible helpers */
 static Janet c16_note(int32_t argc, Janet *argv) {
     c16_init();
@@ -327,7 +481,56 @@ static Janet c16_sockbuf(int32_t argc, Janet *argv) {
     return argv[0];
 }
 
+/* (c16/status-for pid word): the next waitpid reaping `pid` (-1: any) reports `word` */
+static Janet c16_status_for(int32_t argc, Janet *argv) {
+    janet_fixarity(argc, 2);
+    int pid = janet_getinteger(argv, 0), w = janet_getinteger(argv, 1);
+    for (int i = 0; i < MAXINJ; i++) {
+        if (!inj_used[i]) { inj_pid[i] = pid; inj_word[i] = w; inj_used[i] = 1; return janet_wrap_true(); }
+    }
+    return janet_wrap_false();
+}
+
+/* (c16/klog on?) -> switch the K lines on / off;  (c16/fail-next-spawn) -> the next posix_spawn[p] fails with ENOENT */
+static Janet c16_klog(int32_t argc, Janet *argv) {
+    janet_fixarity(argc, 1);
+    klog_on = janet_truthy(argv[0]);
+    return janet_wrap_nil();
+}
+static Janet c16_fail_next_spawn(int32_t argc, Janet *argv) {
+    (void) argv;
+    janet_fixarity(argc, 0);
+    fail_next_spawn = 1;
+    return janet_wrap_nil();
+}
+
+/* (c16/fd x) -> descriptor number of a core/stream or core/file */
+static Janet c16_fd(int32_t argc, Janet *argv) {
+    janet_fixarity(argc, 1);
+    if (janet_checkabstract(argv[0], &janet_stream_type)) return janet_wrap_integer(((JanetStream *) janet_unwrap_abstract(argv[0]))->handle);
+    JanetFile *f = janet_getabstract(argv, 0, &janet_file_type);
+    return janet_wrap_integer(f->file ? fileno(f->file) : -1);
+}
+
+/* (c16/fds) -> "fd:cloexec:target fd:cloexec:target ..." of this process */
+static Janet c16_fds(int32_t argc, Janet *argv) {
+    (void) argv;
+    janet_fixarity(argc, 0);
+    static char buf[65536];
+    FILE *m = fmemopen(buf, sizeof buf - 1, "w");
+    fd_table(m, " ");
+    fflush(m);
+    long len = ftell(m);
+    fclose(m);
+    return janet_stringv((const uint8_t *) buf, (int32_t) len);
+}
+
 static const JanetReg c16_cfuns[] = {
+    {"c16/status-for", c16_status_for, NULL},
+    {"c16/klog", c16_klog, NULL},
+    {"c16/fail-next-spawn", c16_fail_next_spawn, NULL},
+    {"c16/fd", c16_fd, NULL},
+    {"c16/fds", c16_fds, NULL},
     {"c16/note", c16_note, NULL},
     {"c16/slots", c16_slots, NULL},
     {"c16/pending", c16_pending, NULL},
@@ -336,6 +539,7 @@ static const JanetReg c16_cfuns[] = {
 };
 
 int main(int argc, char **argv) {
+    if (argc >= 3 && !strcmp(argv[1], "--fdlist")) return child_main(argc, argv);
     c16_init();
     /* signal dispositions are left exactly as src/mainclient/shell.c leaves them (it installs none): the harness must be the
      * same program as the `janet` client as far as SIGPIPE is concerned */
